@@ -39,11 +39,20 @@ func VerifRun_C09a() {
 	w1 := winner([]*common.VarInfo{a, b})
 	w2 := winner([]*common.VarInfo{b, a})
 	verifReach("compared")
+	// x beats y: x is at most as deep as y in both levels and on a strictly earlier line. The merge rule
+	// keeps the later-merged record only if it beats every record merged before, so the outcome is
+	// order-independent exactly when one of the two records beats the other.
+	beats := func(x, y rec) bool { return x.f <= y.f && x.s <= y.s && x.l < y.l }
 	if w1 != w2 {
-		if ra == rb {
+		switch {
+		case ra == rb:
 			verifViolation("C09-global-tie", "equal (funcLv,scopeLv,line) in two files: winner depends on merge order")
-		} else {
+		case !beats(ra, rb) && !beats(rb, ra):
 			verifViolation("C09-global-nonlex", "comparison is not a total order: winner depends on merge order")
+		default:
+			verifViolation("", "one definition beats the other under the merge rule, yet the winner depends on merge order")
 		}
+	} else if beats(ra, rb) && w1 != "a.lua" || beats(rb, ra) && w1 != "b.lua" {
+		verifViolation("", "the definition that beats the other under the merge rule (shallower, earlier line) is not the one chosen")
 	}
 }
